@@ -173,10 +173,23 @@ def gen_case(ch: Chooser, tier: str = "quick") -> dict:
     return {"prop": PROP, "programs": progs, "ops": ops, "special": special}
 
 
-def _reference(jobs: list[dict]) -> list[dict]:
+REF_SERVER = True     # the worker keeps one fresh-process reference server (factosim.refcompile --serve)
+
+
+def ref_env() -> dict:
     env = dict(os.environ)
     env["PYTHONHASHSEED"] = "0"
     env["PYTHONPATH"] = engine.VERIF + os.pathsep + seam.REPO
+    return env
+
+
+def _reference(jobs: list[dict]) -> list[dict]:
+    from .. import refcompile
+
+    out = refcompile.request(jobs)
+    if out is not None:
+        return out
+    env = ref_env()
     p = subprocess.run([engine.PY, "-m", "factosim.refcompile"], input=json.dumps(jobs),
                        capture_output=True, text=True, env=env, cwd=engine.VERIF, timeout=100)
     if p.returncode != 0:
